@@ -174,3 +174,61 @@ def mentioned(text, names):
     for f in parse(text, set(names)):
         walk(f)
     return found
+
+
+def nary(f):
+    """The parsed formula with every left/right-nested AND/OR chain flattened to ('AND*'|'OR*', [operands]) -
+    iteratively, so that chains of 10^5 operands neither nest nor recurse."""
+    # post-order with an explicit stack
+    out = {}
+    stack = [(f, False)]
+    while stack:
+        x, done = stack.pop()
+        if isinstance(x, str):
+            continue
+        if x[0] in ("AND", "OR"):
+            if not done:
+                ops = _flat(x, x[0])
+                stack.append((x, True))
+                x_ops = ops
+                out[id(x)] = x_ops
+                for o in ops:
+                    stack.append((o, False))
+            continue
+        if not done:
+            stack.append((x, True))
+            for o in x[1:]:
+                stack.append((o, False))
+    return out
+
+
+def ev_nary(f, mask, bit, flat):
+    if isinstance(f, str):
+        return bool(mask & bit[f])
+    o = f[0]
+    if o == "NOT":
+        return not ev_nary(f[1], mask, bit, flat)
+    if o == "AND":
+        for x in flat[id(f)]:
+            if not ev_nary(x, mask, bit, flat):
+                return False
+        return True
+    if o == "OR":
+        for x in flat[id(f)]:
+            if ev_nary(x, mask, bit, flat):
+                return True
+        return False
+    a, b = ev_nary(f[1], mask, bit, flat), ev_nary(f[2], mask, bit, flat)
+    if o == "XOR":
+        return a != b
+    if o == "IMPLIES":
+        return (not a) or b
+    return a == b
+
+
+def truth_on(text, names, masks):
+    """Truth value of the document (conjunction of its lines) on each of the given selections (bit i = names[i])."""
+    fs = parse(text, set(names))
+    bit = {n: 1 << k for k, n in enumerate(names)}
+    flats = [nary(f) for f in fs]
+    return [all(ev_nary(f, m, bit, fl) for f, fl in zip(fs, flats)) for m in masks]
